@@ -94,4 +94,10 @@ theorem session_state_depends_on_accepted_requests_only (s s' : Server) (qs : Li
     (h : serve s qs = .ok (s', rs)) : ∃ rs', serve s (accepted qs rs) = .ok (s', rs') :=
   ⟨_, rejected_erasable qs s s' rs h⟩
 
+/-- **collections do not influence each other over a whole session**: a session of `n` requests
+    changes at most `n` collections; every other collection is served exactly as before -/
+theorem frame_over_a_session (s s' : Server) (qs : List Req) (rs : List Resp) (h : serve s qs = .ok (s', rs)) :
+    ∃ touched : List Bytes, touched.length ≤ qs.length ∧ ∀ n, n ∉ touched → lookup s' n = lookup s n :=
+  session_frame qs s s' rs h
+
 end Syzgy.C17
